@@ -45,9 +45,8 @@ Proof. unfold bv_get. destruct i; reflexivity. Qed.
 
 Lemma bv_get_repeat b n i : bv_get (repeat b n) i = if i <? n then b else BX.
 Proof.
-  unfold bv_get. destruct (Nat.ltb_spec i n) as [H|H].
-  - apply nth_repeat_lt; exact H.
-  - apply nth_overflow. rewrite repeat_length. exact H.
+  unfold bv_get. revert i. induction n as [|n IH]; intros [|i]; simpl; try reflexivity.
+  rewrite IH. reflexivity.
 Qed.
 
 Lemma bv_get_allX n i : bv_get (all_X n) i = BX.
@@ -137,6 +136,14 @@ Proof. intro H. induction n; simpl; constructor; auto. Qed.
 (* ------------------------------------------------------------------ *)
 (* bv_val / bv_of_N                                                      *)
 
+Lemma bv_val_cons b r :
+  bv_val (b :: r) = match b, bv_val r with
+                    | BX, _ | _, None => None
+                    | B0, Some v => Some (2 * v)%N
+                    | B1, Some v => Some (2 * v + 1)%N
+                    end.
+Proof. reflexivity. Qed.
+
 Lemma bv_val_all_def x v : bv_val x = Some v -> all_def x = true.
 Proof.
   revert v. induction x as [|b r IH]; intros v H; simpl in *; [reflexivity|].
@@ -161,23 +168,27 @@ Lemma bv_val_lt x v : bv_val x = Some v -> (v < 2 ^ N.of_nat (length x))%N.
 Proof.
   revert v. induction x as [|b r IH]; intros v H.
   - simpl in H. injection H as <-. simpl. lia.
-  - cbn [bv_val] in H. cbn [length]. replace (N.of_nat (S (length r))) with (N.succ (N.of_nat (length r))) by lia.
+  - rewrite bv_val_cons in H. cbn [length]. replace (N.of_nat (S (length r))) with (N.succ (N.of_nat (length r))) by lia.
     rewrite N.pow_succ_r'. destruct (bv_val r) as [u|]; [|destruct b; discriminate].
-    specialize (IH u eq_refl). destruct b; try discriminate; injection H as <-; lia.
+    specialize (IH u eq_refl).
+    destruct b; try discriminate;
+      [assert (E : v = (2 * u)%N) by congruence | assert (E : v = (2 * u + 1)%N) by congruence]; subst v; lia.
 Qed.
 
 Lemma bv_of_N_val x v : bv_val x = Some v -> bv_of_N (length x) v = x.
 Proof.
   revert v. induction x as [|b r IH]; intros v H; [reflexivity|].
-  cbn [bv_val] in H. cbn [length bv_of_N].
+  rewrite bv_val_cons in H. cbn [length bv_of_N].
   destruct (bv_val r) as [u|]; [|destruct b; discriminate].
   specialize (IH u eq_refl).
-  destruct b; try discriminate; injection H as <-.
+  destruct b; try discriminate;
+    [assert (E : v = (2 * u)%N) by congruence | assert (E : v = (2 * u + 1)%N) by congruence]; subst v; clear H.
   - replace (N.odd (2 * u)) with false by (rewrite N.odd_mul, N.odd_2; reflexivity).
     replace (N.div2 (2 * u)) with u by (rewrite N.div2_double; reflexivity).
     simpl. rewrite IH. reflexivity.
   - replace (N.odd (2 * u + 1)) with true by (rewrite N.add_comm, N.odd_add_mul_2; reflexivity).
-    replace (N.div2 (2 * u + 1)) with u by (rewrite N.div2_succ_double; reflexivity).
+    replace (N.div2 (2 * u + 1)) with u
+      by (rewrite N.div2_spec, N.shiftr_div_pow2; change (2 ^ 1)%N with 2%N; apply N.div_unique with (r := 1%N); lia).
     simpl. rewrite IH. reflexivity.
 Qed.
 
@@ -254,7 +265,7 @@ Qed.
 Lemma plane_v_testbit x i : N.testbit (plane_v x) (N.of_nat i) = bit_val (bv_get x i).
 Proof.
   revert i. induction x as [|b r IH]; intro i.
-  - simpl. rewrite bv_get_nil. apply N.bits_0.
+  - rewrite bv_get_nil. cbn [plane_v plane_d bit_val is_def]. apply N.bits_0.
   - cbn [plane_v]. rewrite testbit_b2n_add_double. destruct i as [|i].
     + reflexivity.
     + replace (N.of_nat (S i) =? 0)%N with false by (symmetry; apply N.eqb_neq; lia).
@@ -264,7 +275,7 @@ Qed.
 Lemma plane_d_testbit x i : N.testbit (plane_d x) (N.of_nat i) = is_def (bv_get x i).
 Proof.
   revert i. induction x as [|b r IH]; intro i.
-  - simpl. rewrite bv_get_nil. apply N.bits_0.
+  - rewrite bv_get_nil. cbn [plane_v plane_d bit_val is_def]. apply N.bits_0.
   - cbn [plane_d]. rewrite testbit_b2n_add_double. destruct i as [|i].
     + reflexivity.
     + replace (N.of_nat (S i) =? 0)%N with false by (symmetry; apply N.eqb_neq; lia).
